@@ -210,6 +210,15 @@ func (a *it4) classifyPush(p *itEvent) ordInfo {
 	var ord ast.Expr
 	switch x := arg.(type) {
 	case *ast.CallExpr:
+		// a helper that builds its result batch with the number of one of its batch parameters
+		// (extracted loop body): the number passes through from the corresponding argument
+		if f := callee(a.info, x); f != nil {
+			if pi, ok := a.c.orderPassThrough(f); ok && pi < len(x.Args) {
+				if src, ok := a.batchSource(x.Args[pi]); ok {
+					return ordInfo{kind: ordPass, src: src, expr: arg}
+				}
+			}
+		}
 		fn := fullName(callee(a.info, x))
 		switch fn {
 		case modPath + "/pkg/obiiter.MakeBioSequenceBatch":
@@ -1336,4 +1345,68 @@ func reseqIn(c *Ctx, b *itBody) *reseq {
 		}
 	}
 	return nil
+}
+
+// orderPassThrough: every return of f (a function of the module returning a BioSequenceBatch) yields
+// either its batch parameter number pi itself or MakeBioSequenceBatch(_, <param pi>.Order(), _).
+func (c *Ctx) orderPassThrough(f *types.Func) (int, bool) {
+	fd, p := c.DeclOf(f)
+	if fd == nil || fd.Body == nil || fd.Type.Results == nil || fd.Type.Results.NumFields() != 1 {
+		return 0, false
+	}
+	info := p.TypesInfo
+	if namedTypeName(info.TypeOf(fd.Type.Results.List[0].Type)) != modPath+"/pkg/obiiter.BioSequenceBatch" {
+		return 0, false
+	}
+	params := flattenParams(fd.Type.Params)
+	pidx := map[types.Object]int{}
+	for i, id := range params {
+		if id != nil {
+			pidx[info.ObjectOf(id)] = i
+		}
+	}
+	// parameters must not be reassigned
+	reassigned := map[types.Object]bool{}
+	ast.Inspect(fd.Body, func(n ast.Node) bool {
+		if as, ok := n.(*ast.AssignStmt); ok {
+			for _, l := range as.Lhs {
+				if id, ok := ast.Unparen(l).(*ast.Ident); ok {
+					if _, isP := pidx[info.ObjectOf(id)]; isP {
+						reassigned[info.ObjectOf(id)] = true
+					}
+				}
+			}
+		}
+		return true
+	})
+	res, ok, n := -1, true, 0
+	ast.Inspect(fd.Body, func(nd ast.Node) bool {
+		if _, isLit := nd.(*ast.FuncLit); isLit {
+			return false
+		}
+		r, isRet := nd.(*ast.ReturnStmt)
+		if !isRet || len(r.Results) != 1 {
+			return true
+		}
+		n++
+		var po types.Object
+		switch x := ast.Unparen(r.Results[0]).(type) {
+		case *ast.Ident:
+			po = info.ObjectOf(x)
+		case *ast.CallExpr:
+			if isCallTo(info, x, "pkg/obiiter.MakeBioSequenceBatch") && len(x.Args) == 3 {
+				if recv := orderReceiver(info, x.Args[1]); recv != nil {
+					po = rootObj(info, recv)
+				}
+			}
+		}
+		pi, isP := pidx[po]
+		if po == nil || !isP || reassigned[po] || (res >= 0 && res != pi) {
+			ok = false
+			return true
+		}
+		res = pi
+		return true
+	})
+	return res, ok && n > 0 && res >= 0
 }
